@@ -355,12 +355,16 @@ func (c *Conn) nextFrame() (int, MessageType, []byte, bool, bool, bool, error) {
 			bodyLen = int64(payloadLen)
 		}
 
-		ml := 0
-		if c.message != nil {
-			ml = len(*c.message)
-		}
-		if c.isMessageTooLarge(ml + int(bodyLen)) {
-			return 0, 0, nil, false, false, false, ErrMessageTooLarge
+		// only the frames of a data message count against the message length
+		// limit; a control frame interleaved with fragments is not part of it.
+		if opcode == FragmentMessage || opcode == TextMessage || opcode == BinaryMessage {
+			ml := 0
+			if c.message != nil {
+				ml = len(*c.message)
+			}
+			if c.isMessageTooLarge(ml + int(bodyLen)) {
+				return 0, 0, nil, false, false, false, ErrMessageTooLarge
+			}
 		}
 
 		if (bodyLen > maxControlFramePayloadSize) &&
